@@ -116,11 +116,28 @@ func c18exec(st *c18state, op Op) Ev {
 			sets = append(sets, []any{b2i(s == nil), s.Len() + extra, b2i(s.IsEmpty()), ints(members), ints(sl), append([]int{ap[0]}, tail...)})
 		}
 		ev["sets"] = sets
-		preds := [][5]int{}
-		for a := 1; a <= 3; a++ {
-			for b := 1; b <= 3; b++ {
-				preds = append(preds, [5]int{a, b, b2i(st.s[a].Intersects(st.s[b])), b2i(st.s[a].IsSubset(st.s[b])), b2i(st.s[a].Equals(st.s[b]))})
+		// the 27 relation queries (9 ordered pairs x Intersects, IsSubset, Equals) are asked in cyclic
+		// order starting at query number po: with po' = po - 1 the first query after the next call
+		// is the very one that was asked last before it
+		po := ((geti(op, "po") % 27) + 27) % 27
+		ev["po"] = po
+		var tab [9][3]int
+		for t := 0; t < 27; t++ {
+			q := (po + t) % 27
+			pair, rel := q/3, q%3
+			a, b := 1+pair/3, 1+pair%3
+			switch rel {
+			case 0:
+				tab[pair][0] = b2i(st.s[a].Intersects(st.s[b]))
+			case 1:
+				tab[pair][1] = b2i(st.s[a].IsSubset(st.s[b]))
+			default:
+				tab[pair][2] = b2i(st.s[a].Equals(st.s[b]))
 			}
+		}
+		preds := [][5]int{}
+		for pair := 0; pair < 9; pair++ {
+			preds = append(preds, [5]int{1 + pair/3, 1 + pair%3, tab[pair][0], tab[pair][1], tab[pair][2]})
 		}
 		ev["preds"] = preds
 		hass := []any{}
@@ -170,7 +187,16 @@ func runC18(c *Ctx) {
 			rng := c.Rng("c18", i)
 			h := c.NewHist("random")
 			st := &c18state{}
-			do := func(op Op) { h.Emit(c18exec(st, op)) }
+			po := 0
+			do := func(op Op) {
+				if rng.Intn(2) == 0 {
+					po = (po + 26) % 27 // ask first what was asked last
+				} else {
+					po = rng.Intn(27)
+				}
+				op["po"] = po
+				h.Emit(c18exec(st, op))
+			}
 			do(Op{"op": "new"})
 			items := func() []int {
 				out := make([]int, rng.Intn(5))
